@@ -36,6 +36,13 @@ LONG = {"-rtol": "--relative-tolerance", "-atol": "--absolute-tolerance"}
 OFF_ENV = "FCV_P6G_OFF"        # set to 1: C04 skips all phase-6 G1c batches (used for the before/after mutant experiments)
 
 
+PVD_CWD_ENV = "FCV_P6G_PVDCWD"  # set to 1: also run .pvd sequences with the cwd INSIDE the result directory (fails on the clean tree)
+
+
+def pvd_cwd_optin() -> bool:
+    return os.environ.get(PVD_CWD_ENV, "") not in ("", "0")
+
+
 def disabled() -> bool:
     return os.environ.get(OFF_ENV, "") not in ("", "0")
 
@@ -194,6 +201,10 @@ def presentation_scenarios(rng, k):
         if not _eq_safe(sc):
             continue
         sc["p6"] = gen_presentation(rng)
+        if "seq" in (sc["res"]["kind"], sc["ref"]["kind"]) and sc["p6"]["paths"] == "rel-resdir" and not pvd_cwd_optin():
+            # suspected genuine defect (notes/PHASE6_G1c.md, "PVD step files are looked up in the cwd first"): a .pvd whose
+            # step files have namesakes in the cwd is read from the cwd.  Not a known-finding class -> opt-in only
+            sc["p6"]["paths"] = "rel-parent"
         out.append((sc, list(tags) + ["p6-presentation"] + _ptags(sc["p6"])))
     return out
 
@@ -310,8 +321,11 @@ def size_scenarios(rng, sizes, per_size=2, lean_max=100):
                 tags.append("p6-nolean")
             if rows:
                 pos = rng.choice(["first", "middle", "last", "last"])
-                i = {"first": 0, "middle": rows // 2, "last": rows - 1}[pos]
                 how = rng.choice(["above", "below", "int"])
+                if rows >= 1000 and rep_i < 2:
+                    # every long table has a failing float deviation and a failing integer deviation in its tail
+                    pos, how = rng.choice(["last", "last", "middle"]), ("above", "int")[rep_i]
+                i = {"first": 0, "middle": rows // 2, "last": rows - 1}[pos]
                 if how == "int":
                     res["cols"][3]["v"][i] += 1
                     sc["rtol"] = ["0.5"]
@@ -563,3 +577,50 @@ def run_meshflag_case(c, wd):
 
 def meshflag_bad(c, out) -> bool:
     return c["want"] is not None and (cs.outcome_class(out) == "0") != (c["want"] == "0")
+
+
+# ---------------------------------------------------------------- the SAME paths with new contents, one process
+
+def gen_sequence(rng, n=4):
+    """n decided CSV / mesh scenarios (python oracle '0' / 'nz' alternating where possible) to be run one after the other
+    on the SAME two paths, rewritten in between: the exit code must follow the contents (no state keyed by file name,
+    no verdict / tolerance / reader object surviving an invocation)"""
+    kind = rng.choice(["csv", "csv", "mesh"])
+    steps, want = [], rng.choice(["0", "nz"])
+    tries = 0
+    while len(steps) < n and tries < 400:
+        tries += 1
+        sc, _tags = (cs.gen_csv_scenario if kind == "csv" else cs.gen_mesh_scenario)(rng)
+        if sc.get("ext") or sc["damage"] != [None, None] or cs._unknown_reader(sc):
+            continue
+        if cs.py_eval(sc)["exit"] != want:
+            continue
+        steps.append(sc)
+        want = "nz" if want == "0" else "0"
+    return {"kind": "p6-sequence", "fmt": kind, "steps": steps}
+
+
+def run_sequence(seq, wd):
+    """-> list of (outcome, expected, readok) per step; all steps use the directory (hence the paths) of the first"""
+    import shutil
+    d = wd.fresh()
+    out = []
+    try:
+        for sc in seq["steps"]:
+            for side in ("r", "f"):
+                shutil.rmtree(os.path.join(d, side), ignore_errors=True)
+            res, ref = cs.materialise(sc, d)
+            readok = cs.read_check(sc, res, ref)
+            o, _ = cs.run_cli(["file", res, ref] + cs.option_argv(sc))
+            out.append((o, cs.py_eval(sc)["exit"], readok))
+    finally:
+        wd.drop(d)
+    return out
+
+
+def sequence_bad(results):
+    """index of the first step whose exit code contradicts the oracle (None = all agree)"""
+    for i, (o, want, readok) in enumerate(results):
+        if readok and want is not None and (cs.outcome_class(o) == "0") != (want == "0"):
+            return i
+    return None
